@@ -18,7 +18,7 @@ from . import common as C
 ID = 'C07'
 LEVEL = 'exploration'
 TECHNIQUE = ('runtime monitoring: remainder oracle on one-shot decode(e + tail) and stream-position monitor '
-             '(tell() after every yielded object) on back-to-back encodings')
+             '(tell() after every yielded object) on back-to-back encodings read from five kinds of stream object')
 RULE = ('cases = (T, v, encoding kind, tail kind) and streams of 1..5 encodings of values of one type; encodings come '
         'from every pyasn1 encoder/mode and from the reference BER variant writer; tails = empty, 00, 00 00, '
         '00 00 00 00, another encoding, garbage, ff..; non-trivial = non-empty tail or stream of >= 2 encodings; '
